@@ -29,6 +29,7 @@ from .introspect import (
     ExternalVarsVisitor,
     LocalVar,
     _function_name,
+    _kept_function_name,
     get_assign_targets,
     python_builtin_names,
     getsource_class,
@@ -392,6 +393,11 @@ class IntroVisitorIndirect(ast.NodeVisitor):
         )
         if fi_or_p is not None:
             self.results.append(fi_or_p)
+            if isinstance(fi_or_p, FunctionIndirectInteractions):
+                # The function passed to dds.keep is not a higher-order reference (see IntroVisitor)
+                kept_name = _kept_function_name(node, self._start_mod, self._gctx)
+                if kept_name is not None:
+                    self._store_names.add(kept_name)
         self.generic_visit(node)
 
     def visit_Assign(self, node: ast.Assign) -> Any:
